@@ -156,6 +156,85 @@ def analyse(h, v: Verdict, table, stats):
     h["where"] = where
 
 
+def ins_part(scratch, tier, seed, v, stats):
+    """The same enumeration for the importance sampler (per-level weight files, with and without
+    keeping the previous checkpoint)."""
+    from .nsruns import ins_spec, validate_ins
+
+    n_targets = 0
+    all_hs = []
+    for keep in (False, True):
+        def mk():
+            return ins_spec("gauss2", seed * 100 + 12, 100, max_iteration=5, save_existing_checkpoint=keep)
+        rec = mk()
+        rec["extra"] = {"fs_faults": {"mode": "record"}}
+        (h0,) = run_corpus([rec], scratch / f"ins_rec_{keep}")
+        if h0["codes"][-1] != 0:
+            raise MachineryError(f"INS recording run failed: {h0['codes']} {h0['dir']}")
+        raw = load_events(h0["events"])
+        ops_by_call = {(e["kind"], e["nth"]): e["ops"] for e in raw if e["ev"] == "fs_ops"}
+        targets = plan(ops_by_call, tier)
+        n_targets += len(targets)
+        specs = []
+        for t in targets:
+            s_ = mk()
+            s_["extra_by_proc"] = {"0": {"fs_faults": t}}
+            specs.append(s_)
+        hs = run_corpus(specs, scratch / f"ins_kills_{keep}")
+        for h in hs:
+            raw = load_events([f for f in h["events"] if os.path.exists(f)])
+            fault = next((e for e in raw if e["ev"] == "fault"), None)
+            if fault is None:
+                v.mismatch(f"INS kill point never reached: {h['spec']['extra_by_proc']['0']['fs_faults']}")
+                continue
+            stats["kills"] += 1
+            where = (f"INS (save_existing_checkpoint={keep}): kill before op {fault['op']} ({fault['before']}, "
+                     f"frac={fault['frac']}) of {fault['kind']} #{fault['nth']}")
+            h["where"] = where
+            p0 = [e for e in raw if e["proc"] == 0]
+            p1 = [e for e in raw if e["proc"] == 1]
+            done_ckpts = [e for e in p0 if e["ev"] == "ckpt"]
+            begun = [e for e in p0 if e["ev"] == "ckpt_begin"]
+            new_completed = fault["kind"] == "ckpt" and any(
+                o.startswith("move:") and ".temp->" in o for o in fault.get("ops_done", []))
+            completed = len(done_ckpts) + (1 if new_completed else 0)
+            resume = next((e for e in p1 if e["ev"] == "resume"), None)
+            exc = next((e for e in p1 if e["ev"] == "exception"), None)
+            init1 = next((e for e in p1 if e["ev"] == "ins_init"), None)
+            replay = {"spec": h["spec"], "fault_event": fault, "codes": h["codes"]}
+            if resume is not None:
+                out = "ok"
+                valid = [e["digest"] for e in done_ckpts[-2:]] + [e["digest"] for e in begun[-1:]]
+                if not any(resume["digest"] == d for d in valid):
+                    v.violation("ins:loaded_state_is_neither_previous_nor_new",
+                                f"{where}: restored state matches no checkpoint of the killed process", replay)
+            elif exc is not None or h["codes"][-1] == 3:
+                out = "failed"
+                v.violation("ins:resume_failed", f"{where}: resume raised {exc['what'] if exc else '?'}", replay)
+            elif init1 is not None:
+                out = "fresh"
+                if completed > 0:
+                    v.violation("ins:fresh_start_although_checkpoint_completed",
+                                f"{where}: {completed} checkpoints had completed but the run started afresh", replay)
+            else:
+                out = "unknown"
+                v.mismatch(f"{where}: could not classify the resumed process (codes {h['codes']})")
+            if out in ("ok", "fresh") and not any(e["ev"] == "done" for e in p1):
+                v.violation("ins:continued_run_did_not_complete", f"{where}: sampling did not complete after the resume "
+                            f"(exit codes {h['codes']})", replay)
+            stats["outcomes"]["ins_" + out] = stats["outcomes"].get("ins_" + out, 0) + 1
+        all_hs += [h for h in hs if h["codes"][-1] == 0]
+    if all_hs:
+        records, tstats, _ = validate_ins(all_hs, scratch, tag="ins_c11")
+        for r in records:
+            if r["k"] == "P" and r["p"] in ("C03", "C04", "C05"):
+                h = all_hs[r["h"]]
+                v.violation("ins:continued_run_invalid:" + r["c"].split(":")[-1].strip()[:60],
+                            f"{h.get('where')}: clause {r['p']}/{r['c']} fails in the continued run",
+                            {"spec": h["spec"], "event": r["ev"]})
+    return n_targets, len(all_hs)
+
+
 def main(tier: str) -> int:
     seed = seed_from_env()
     v = Verdict(PROP, tier, seed, "fault_enumeration")
@@ -192,7 +271,8 @@ def main(tier: str) -> int:
                 v.violation("continued_run_invalid:" + r["c"],
                             f"{h.get('where')}: clause {r['p']}/{r['c']} fails in the continued run",
                             {"spec": h["spec"], "event": r["ev"]})
-        distinct = len({(t["target"][0], t["target"][1], t["op"], t["frac"]) for t in targets})
+        n_ins, n_ins_ok = ins_part(scratch, tier, seed, v, stats)
+        distinct = len({(t["target"][0], t["target"][1], t["op"], t["frac"]) for t in targets}) + n_ins
         v.coverage = {
             "evaluations": stats["kills"],
             "distinct_nontrivial": distinct,
@@ -205,7 +285,7 @@ def main(tier: str) -> int:
                          "a_kill_point": targets[len(targets) // 2]}],
             "outcomes": stats["outcomes"],
             "spec_states": states, "spec_transitions": trans,
-            "continued_runs_validated_by_TLC": len(ok_hs),
+            "continued_runs_validated_by_TLC": len(ok_hs) + n_ins_ok, "ins_kill_points": n_ins,
             "trace_states": tstats["states"],
         }
     v.assumptions = ["rename is atomic; a killed process leaves a prefix of the file it was writing",
